@@ -231,11 +231,11 @@ func (t token) String() string {
 
 // lexer holds the state of the scanner.
 type lexer struct {
-	input  string     // the string being scanned.
-	start  int        // start position of this token.
-	pos    int        // current position in the input.
-	width  int        // width of last rune read from input.
-	tokens chan token // channel of scanned tokens.
+	input  string        // the string being scanned.
+	start  int           // start position of this token.
+	pos    int           // current position in the input.
+	width  int           // width of last rune read from input.
+	tokens chan token    // channel of scanned tokens.
 	done   chan struct{} // closed when the client stops reading tokens.
 }
 
